@@ -2,10 +2,11 @@
 # runall.sh [quick|thorough] [ID...]  run every claimed check on the current tree, summarise
 TIER="${1:-quick}"; shift
 IDS="$@"
-[ -z "$IDS" ] && IDS=$(python3 -c "import json; print(' '.join(c['property_id'] for c in json.load(open('/verif/MANIFEST.json'))['checks']))")
+ROOT="$(cd "$(dirname "$0")/.." && pwd)"
+[ -z "$IDS" ] && IDS=$(python3 -c "import json; print(' '.join(c['property_id'] for c in json.load(open('$ROOT/MANIFEST.json'))['checks']))")
 rc=0
 for id in $IDS; do
-  out=$(/verif/run.sh $id $TIER 2>&1); r=$?
+  out=$("$ROOT/run.sh" $id $TIER 2>&1); r=$?
   echo "$out" | grep -E "^$id tier|^VIOLATION|^KNOWN|INTERNAL" | head -5
   [ $r -ne 0 ] && { echo "  -> exit $r"; rc=1; }
 done
